@@ -1001,3 +1001,79 @@ def rule_limit_test_alive(ctx):
                     ctx.holds("LIMITDEAD", key, f.where(s.get("l", f.line)), "`%s` reaches the test against %s unnarrowed" % (v, strip(c[3])[2]), nontrivial=True)
     ctx.floor("LIMITDEAD", 5, n, "(limit tests on a local assigned in the same block)")
     return n
+
+
+class _NegClamp(PathAnalysis):
+    """user = frozenset of locals that hold `<length> - <position>` and have not been compared with 0 since"""
+
+    def __init__(self, prog):
+        super().__init__(prog)
+        self.sites = {}
+        self.clamps = 0
+
+    def init_user(self, func):
+        return frozenset()
+
+    def on_stmt(self, func, bid, idx, stmt, env, user):
+        u = set(user)
+        for x in walk(stmt["e"]):
+            if x[0] == "asg" and x[1] == "=" and kind(strip(x[2])) == "var":
+                v = strip(x[2])[1]
+                r = strip(x[3])
+                if kind(r) == "bin" and r[1] == "-" and (mem_field(r[3]) or (0, 0))[1] == "posn":
+                    u.add(v)
+                    self.clamps += 1
+                else:
+                    u.discard(v)
+            elif x[0] == "call" and x[1] not in ("HEpush", "HEreport", "HERROR"):
+                for a in x[3]:
+                    a = strip(a)
+                    while kind(a) == "cast":
+                        a = strip(a[2])
+                    if kind(a) == "var" and a[1] in u:
+                        self.sites.setdefault((a[1], x[1], stmt.get("l", 0)), True)
+                        self.sites[(a[1], x[1], stmt.get("l", 0))] = False
+            if x[0] == "asg" and x[1] == "+=" and (mem_field(x[2]) or (0, 0))[1] == "posn" and kind(strip(x[3])) == "var" and strip(x[3])[1] in u:
+                self.sites[(strip(x[3])[1], "posn +=", stmt.get("l", 0))] = False
+        return frozenset(u)
+
+    def on_assume(self, func, bid, cond, pol, env, user):
+        u = None
+        for c in walk(cond, True):
+            if c[0] == "bin" and c[1] in ("<", "<=", ">", ">=") and kind(strip(c[2])) == "var" and strip(c[2])[1] in user and is_int(c[3], 0):
+                u = (u or set(user))
+                u.discard(strip(c[2])[1])
+            elif c[0] == "bin" and c[1] in ("<", "<=", ">", ">="):
+                # used as a bound for another quantity (`remaining > length`) while its sign is unknown
+                for a, o in ((c[2], c[3]), (c[3], c[2])):
+                    a = strip(a)
+                    if kind(a) == "var" and a[1] in user and not is_int(o):
+                        self.sites[(a[1], "bound of `%s`" % render(c)[:30], 0)] = False
+        return frozenset(u) if u is not None else user
+
+
+def rule_clamp_sign_checked(ctx):
+    """NEGCLAMP (C01): an extendable element lets Hseek move the position past its end.  The read routines shorten a request that
+    runs off the end to `length - posn`; with the position beyond the end that is negative.  On every path, a local that was
+    given `<something> - posn` must be compared with 0 before it is handed to a call (copy, file read, coder) or added to the
+    position: otherwise the routine copies or reads with a huge unsigned size, or reports a negative transfer count as success."""
+    prog = ctx.prog
+    n = 0
+    for f in prog.lib_funcs():
+        if not f.rel.startswith("hdf/src/") or not f.name.endswith("read"):
+            continue
+        if not any(x[0] == "asg" and x[1] == "=" and kind(strip(x[3])) == "bin" and strip(x[3])[1] == "-" and (mem_field(strip(x[3])[3]) or (0, 0))[1] == "posn" for _b, _i, _s, x in f.nodes(True)):
+            continue
+        a = _NegClamp(prog)
+        a.fails = fail_values(f, prog)
+        a.run(f)
+        n += 1
+        key = "NEGCLAMP:%s" % f.name
+        bad = sorted(k for k, ok in a.sites.items() if not ok)
+        if bad:
+            v, use, line = bad[0]
+            ctx.violated("NEGCLAMP", key, f.where(line), "`%s` holds `<length> - posn` and reaches `%s` on a path that never compared it with 0: after a seek past the end it is negative" % (v, use))
+        else:
+            ctx.holds("NEGCLAMP", key, f.where(), "a request clamped to `<length> - posn` is compared with 0 before it is used", nontrivial=True)
+    ctx.floor("NEGCLAMP", 5, n, "(read routines that clamp a request to the rest of the element)")
+    return n
